@@ -663,14 +663,41 @@ pub fn check_main(def: &CheckDef, tier: Tier) -> i32 {
     };
     let res = drive(def, tier, seed, cap);
     let mut stats = res.stats;
-    // worker deaths are verdicts about okane: fold them in as violations with the case description
+    // Worker deaths are verdicts about okane - but only if they are properties of the CASE, not of the machine:
+    // okane is deterministic and single-threaded, so a genuine hang or stack overflow reproduces on every replay.
+    // Each death is replayed twice in a fresh process with a generous time limit; if a replay runs to completion the
+    // death was environmental (an overloaded machine starving a worker past the watchdog, an OOM kill) and the
+    // replay's verdict is the case's verdict.
     for d in &res.deaths {
         let desc = describe_case(def, tier, d.case_index);
-        let sig = d.how.clone();
-        stats.evaluations += 1;
+        let t = Duration::from_secs(def.hang_s.max(1) * 5 + 30);
+        let r1 = run_only(def, tier, d.case_index, t);
+        let r2 = run_only(def, tier, d.case_index, t);
+        let finished: Vec<&(String, String)> = [&r1, &r2].into_iter().filter(|r| r.0 == "ok").collect();
+        let mut sig = d.how.clone();
+        let mut detail = "worker process died or hung while running okane on this input (reproduced in 2 of 2 replays)".to_string();
+        if let Some(done) = finished.first() {
+            let vline = done.1.lines().find(|l| l.starts_with("verdict:")).unwrap_or("").to_string();
+            println!("NOTE: worker death ({}) at case {} was not reproduced on replay ({} of 2 replays ran to completion: {}); the replay's verdict stands", d.how, d.case_index, finished.len(), vline);
+            stats.evaluations += 1;
+            if let Some(rest) = vline.strip_prefix("verdict: VIOLATION sig=") {
+                sig = rest.trim().to_string();
+                detail = done.1.lines().skip_while(|l| !l.starts_with("verdict:")).skip(1).collect::<Vec<_>>().join("\n");
+            } else {
+                if vline.starts_with("verdict: PASS") {
+                    stats.must += 1;
+                } else {
+                    stats.dont_care += 1;
+                }
+                *stats.classes.entry("replayed-after-environmental-worker-death".to_string()).or_default() += 1;
+                continue;
+            }
+        } else {
+            stats.evaluations += 1;
+        }
         stats.must += 1;
         *stats.classes.entry(format!("VIOLATION {}", sig)).or_default() += 1;
-        let e = stats.violations.entry(sig.clone()).or_insert(ViolationRec { sig: sig.clone(), detail: "worker process died or hung while running okane on this input".into(), case_index: d.case_index, desc: desc.clone(), count: 0 });
+        let e = stats.violations.entry(sig.clone()).or_insert(ViolationRec { sig: sig.clone(), detail, case_index: d.case_index, desc: desc.clone(), count: 0 });
         e.count += 1;
         if d.case_index < e.case_index {
             e.case_index = d.case_index;
@@ -699,6 +726,10 @@ pub fn check_main(def: &CheckDef, tier: Tier) -> i32 {
         if a != b {
             eprintln!("replay of case {} is not deterministic:\n--1-- {:?}\n--2-- {:?}", v.case_index, a, b);
             machinery_error("non-deterministic replay: harness does not own all nondeterminism");
+        }
+        if !sampling && a.0 == "ok" && !a.1.starts_with("verdict: VIOLATION") {
+            eprintln!("case {} was judged a violation ({}) in the exploration but replays as: {:?}", v.case_index, sig, a);
+            machinery_error("violation not reproduced on replay: harness does not own all nondeterminism");
         }
         std::fs::create_dir_all(&replay_dir).ok();
         let path = replay_dir.join(format!("{}.json", sanitize(sig)));
